@@ -63,6 +63,93 @@ def _stmt_of(n):
     return n
 
 
+def _wiring_table(ck: Checker, prog: Program, f, fq: str, lp: ast.For, rec: str):
+    """One pass of the per-record loop as a decision table over the settings: which steps run, on what, with which values."""
+    from ..pathtable import PathTable, consistent, pick
+    R = lambda n: sp.Symbol(n, real=True)   # noqa: E731
+    F = sp.Function
+    SET, REC, NONE = R("settings"), R("<record>"), sp.Symbol("None")
+    ORI, CORN, WL, DET = (F("attr_" + a)(SET) for a in ("orient_to_degrees_from_north", "filter_corner_frequencies_in_hz", "window_length_in_seconds", "detrend"))
+    top = [l for l in PathTable(prog, f.module, structured=True, unroll=True).leaves(f.node.body) if id(lp) in l.snaps]
+    if not top:
+        raise AnalysisError(f"{fq}: the per-record loop is not reached")
+    env = dict(top[0].snaps[id(lp)][0])
+    env[rec] = REC
+    leaves = [l for l in PathTable(prog, f.module, env=env, structured=True, unroll=True).leaves(lp.body) if l.exit == "fall"]
+    if not leaves:
+        raise AnalysisError(f"{fq}: no complete pass of the per-record loop")
+
+    bad = {"orientation guard": [], "receivers": [], "settings wiring": [], "detrend": [], "detrend type": []}
+    GIVEN = sp.Symbol("'<given>'")
+    worlds = [{ORI: o, WL: w, DET: d} for o in (NONE, GIVEN) for w in (NONE, GIVEN) for d in (NONE, sp.Symbol("'none'"), GIVEN)]
+    covered = 0
+    for world in worlds:
+        live = [l for l in leaves if consistent(l, world)]
+        if not live:
+            bad["settings wiring"].append(f"no pass of the loop for settings {world}")
+        for l in live:
+            covered += 1
+            calls = [e for e in l.events if e[0] == "call"]
+            named = lambda nm: [e[2] for e in calls if getattr(getattr(e[2], "func", None), "__name__", "") == nm]   # noqa: E731
+            # orientation
+            o = named("orient_sensor_to")
+            if bool(o) != (world[ORI] != NONE):
+                bad["orientation guard"].append(f"orientation {'applied' if o else 'skipped'} when the configured target is {'given' if world[ORI] != NONE else 'None'}")
+            for x in o:
+                if x.args[0] != REC:
+                    bad["receivers"].append(f"orient_sensor_to acts on {x.args[0]}")
+                if len(x.args) < 2 or x.args[1] != ORI:
+                    bad["orientation guard"].append(f"orientation target is {x.args[1:]}")
+            # filter
+            fl = named("butterworth_filter")
+            if len(fl) != 1 or fl[0].args[0] != REC:
+                bad["receivers"].append(f"the filter acts on {[str(x.args[0]) for x in fl]}")
+            elif len(fl[0].args) < 2 or fl[0].args[1] != CORN:
+                bad["settings wiring"].append(f"filter corners are {fl[0].args[1:]}")
+            # windows handed on
+            ext = named("extend")
+            if len(ext) != 1:
+                raise AnalysisError(f"{fq}: expected one extend() of the output list per record")
+            V = pick(ext[0].args[1], world)
+            if V is None:
+                raise AnalysisError(f"{fq}: the windows handed on ({ext[0].args[1]}) are not decided by the settings")
+            if world[WL] != NONE and V != F("split")(REC, WL):
+                bad["settings wiring" if getattr(getattr(V, "func", None), "__name__", "") == "split" and V.args[0] == REC else "receivers"].append(f"with a window length the windows are {V}")
+            elif world[WL] == NONE and V != sp.Tuple(REC):
+                bad["receivers"].append(f"without a window length the windows are {V}")
+            # detrend: each window of that same list, with the configured type, exactly when a type is configured
+            wanted = world[DET] == GIVEN
+            dl = [e for e in l.events if e[0] == "loop" and isinstance(e[3], ast.For) and calls_in(e[3], "detrend")]
+            if bool(dl) != wanted:
+                bad["detrend"].append(f"windows are {'detrended' if dl else 'not detrended'} when the configured type is {world[DET]}")
+            for e in dl:
+                st = e[3]
+                env2 = dict(l.snaps[id(st)][0])
+                Tn = PathTable(prog, f.module, structured=True, unroll=True)._T(env2)
+                seq = pick(Tn.tr(st.iter), world)
+                if seq != V:
+                    bad["receivers"].append(f"detrend runs over {seq}, not over the windows handed on")
+                if not isinstance(st.target, ast.Name):
+                    raise AnalysisError(f"{fq}: detrend loop target")
+                env2[st.target.id] = R("<window>")
+                sub = PathTable(prog, f.module, env=env2, structured=True, unroll=True).leaves(st.body)
+                dcalls = [x[2] for sl in sub for x in sl.events if x[0] == "call" and getattr(getattr(x[2], "func", None), "__name__", "") == "detrend"]
+                if len(sub) != 1 or len(dcalls) != 1 or dcalls[0].args[0] != R("<window>"):
+                    bad["receivers"].append("detrend is not applied once to each window")
+                elif len(dcalls[0].args) < 2 or dcalls[0].args[1] != DET:
+                    bad["detrend type"].append(f"detrend type is {dcalls[0].args[1:]}")
+    names = {"orientation guard": "orientation applied exactly when a target is configured (0 included), with that target",
+             "receivers": f"orient/filter/split act on the whole record; detrend on each window of the split result",
+             "settings wiring": "filter/split use the configured corners and window length",
+             "detrend": "windows detrended exactly when a detrend type is configured",
+             "detrend type": "detrend type from settings"}
+    for k, v in bad.items():
+        if not v:
+            ck.ok("C10.R1", fq, names[k], detail=f"{len(leaves)} paths through one pass of the loop, {len(worlds)} settings combinations")
+        else:
+            ck.violation("C10.R1", fq, k, "; ".join(sorted(set(v))[:3]), loc=f.loc(lp))
+
+
 def _r1(ck: Checker, prog: Program):
     f = prog.func("preprocessing.hvsr_preprocess")
     fq = f.qualname
@@ -85,26 +172,7 @@ def _r1(ck: Checker, prog: Program):
             return
     O, F, S, D = orient[0], filt[0], split[0], detr[0]
     nO, nF, nS, nD = [cfg.node(_stmt_of(x)) for x in (O, F, S, D)]
-    # receivers
-    recv = {k: unparse(c.func.value) for k, c in (("orient", O), ("filter", F), ("split", S), ("detrend", D))}
-    if recv["orient"] == rec and recv["filter"] == rec and recv["split"] == rec:
-        ck.ok("C10.R1", fq, f"orient/filter/split act on the record `{rec}`")
-    else:
-        ck.violation("C10.R1", fq, "receivers", f"orient/filter/split receivers are {recv}; all must be the whole record `{rec}`", loc=f.loc(lp))
-    # detrend acts on elements of the split result
-    dloop = parent_of(_stmt_of(D))
-    ok_d = isinstance(dloop, ast.For) and isinstance(dloop.target, ast.Name) and recv["detrend"] == dloop.target.id and isinstance(dloop.iter, ast.Name)
-    if ok_d:
-        rd = reaching(f)
-        defs = rd.def_stmts(dloop.iter.id, dloop)
-        srcs = [unparse(d.value) for d in defs if isinstance(d, ast.Assign)]
-        ok_d = any(x is S for d in defs if isinstance(d, ast.Assign) for x in ast.walk(d.value)) and \
-            all(s == f"[{rec}]" or "split(" in s for s in srcs)
-    if ok_d:
-        ck.ok("C10.R1", fq, norm_key(_stmt_of(D)), detail="detrend is applied to each window of the split result")
-    else:
-        ck.violation("C10.R1", fq, norm_key(_stmt_of(D)), "detrend is not applied to each window produced by split (window by window, after splitting)",
-                     loc=f.loc(D))
+    _wiring_table(ck, prog, f, fq, lp, rec)
     # ordering on every path (within one iteration): avoid passing the loop header again
     h = cfg.node(lp)
 
@@ -128,25 +196,6 @@ def _r1(ck: Checker, prog: Program):
         if isinstance(p, (ast.If, ast.For, ast.While, ast.Try)):
             ck.violation("C10.R1", fq, "filter unconditional", "the filter step is conditional or repeated", loc=f.loc(F))
         p = parent_of(p)
-    # guards
-    og = parent_of(_stmt_of(O))
-    ok_g = isinstance(og, ast.If) and unparse(og.test) == "settings.orient_to_degrees_from_north is not None" and not og.orelse
-    arg_ok = O.args and unparse(O.args[0]) == "settings.orient_to_degrees_from_north"
-    if ok_g and arg_ok:
-        ck.ok("C10.R1", fq, norm_key(og), detail="orientation applied whenever a target is configured (0 included)")
-    else:
-        ck.violation("C10.R1", fq, "orientation guard",
-                     "orientation is not applied exactly when settings.orient_to_degrees_from_north is not None with that value "
-                     f"(guard `{unparse(og.test) if isinstance(og, ast.If) else None}`)", loc=f.loc(O))
-    if F.args and unparse(F.args[0]) == "settings.filter_corner_frequencies_in_hz" and S.args and unparse(S.args[0]) == "settings.window_length_in_seconds":
-        ck.ok("C10.R1", fq, "filter/split use the configured corners and window length", nontrivial=False)
-    else:
-        ck.violation("C10.R1", fq, "settings wiring", "filter corners or window length are not the configured values", loc=f.loc(lp))
-    dk = kwarg(D, "type") or (D.args[0] if D.args else None)
-    if dk is not None and unparse(dk) == "settings.detrend":
-        ck.ok("C10.R1", fq, "detrend type from settings", nontrivial=False)
-    else:
-        ck.violation("C10.R1", fq, "detrend type", "detrend type is not settings.detrend", loc=f.loc(D))
     # output order: windows extended per record in order
     ext = [c for c in calls_in(lp, "extend") if unparse(c.func.value) == "preprocessed_records"]
     rets = [r for r in own_nodes(f.node) if isinstance(r, ast.Return)]
@@ -358,6 +407,15 @@ def _r3_r4(ck: Checker, prog: Program):
         elif getattr(it, "func", None) == sp.Function("range") and len(it.args) == 1:
             W = it.args[0]
             start_j = J
+        elif getattr(it, "func", None) == sp.Function("range") and len(it.args) in (2, 3):
+            # range(first, stop, stride): window j starts at first + j*stride, for j < (stop - first)/stride when that is whole
+            first, stop = it.args[0], it.args[1]
+            stride = it.args[2] if len(it.args) == 3 else sp.Integer(1)
+            cnt = sp.cancel(sp.together((stop - first) / stride))
+            if sp.denom(cnt) != 1:
+                raise AnalysisError(f"{fq}: the number of windows produced by {it} is not a whole expression")
+            W = cnt
+            start_j = sp.expand(first + J * stride)
         else:
             raise AnalysisError(f"{fq}: construction of the window list not recognised (iterates {it})")
         a, b = a_.subs(var, start_j), b_.subs(var, start_j)
